@@ -10,6 +10,9 @@
 (*     {"k":"res","t":thread,"c":{the same call}}                              *)
 (*     {"k":"End","obj":"buf"|"val"}   producers joined, final consume()/update() done *)
 (*     {"k":"Reset"}                   next execution, fresh object            *)
+(* A burst of n calls of one producer during which the consumer was held       *)
+(* between two calls by the driver is ONE record (op "bpush" / "burst", first   *)
+(* value and n) and takes effect as ONE macro action of the contract.           *)
 (* (anything else - "race", "crash", "timeout" - is an event no behaviour of   *)
 (* the contract contains).                                                     *)
 (* A call takes effect in ONE contract step (TLin) placed anywhere between its *)
@@ -43,14 +46,37 @@ NotLin == [t \in TThreads |-> FALSE]
 
 TInit == Init /\ l = 1 /\ at = Idle /\ lin = NotLin /\ start = 1 /\ TLCSet(1, 1)
 
+\* bursts and long batches arrive in run-length form (lossless): n values first, first+1, ...
+Run(first, n)        == [i \in 1..n |-> first + i - 1]
+ElemRun(p, first, n) == [i \in 1..n |-> <<p, first + i - 1>>]
+RECURSIVE ExpandRuns(_)
+ExpandRuns(rs) == IF rs = <<>> THEN <<>>
+                  ELSE ElemRun(Head(rs)[1], Head(rs)[2], Head(rs)[3] - Head(rs)[2] + 1) \o ExpandRuns(Tail(rs))
+BatchOf(c) == IF "runs" \in DOMAIN c THEN ExpandRuns(c.runs) ELSE c.batch
+
+\* The open call of thread t was made while every producer had stopped: no producer call is open and the
+\* line after t's invocation is its own response, so nothing at all happened inside its window.  The lines
+\* up to that response are a complete execution (it is what really happened up to then) whose producers
+\* have stopped and whose consumer has made one more call: the End clause applies (BConsumeQ_, VUpdateQ_).
+Quiescent(t) == /\ \A q \in TThreads \ {0} : at[q] = 0
+                /\ at[t] < N /\ TraceLines[at[t] + 1].k = "res" /\ TraceLines[at[t] + 1].t = t
+
+\* Search hint: the orchestrator copies into an update() record the value returned by the get() the same
+\* thread made next ("ng").  Only the consumer changes `cur`, so a choice of cur' that disagrees with that
+\* get() is a branch the get() line would cut anyway; cutting it here keeps update() after a burst of 2^16
+\* assignments from spawning 2^16 branches.  Never changes the verdict.
+Hint(c) == "ng" \in DOMAIN c => ValAt(cur') = c.ng
+
 \* the contract step of a recorded call c made by thread t, with the results as observed
 Effect(t, c) ==
   CASE c.op = "push"    -> t = c.v[1] /\ BPush_(t, c.v)
-    [] c.op = "consume" -> BConsume_(c.batch)
+    [] c.op = "bpush"   -> t = c.p /\ BBurst_(t, ElemRun(c.p, c.first, c.n))
+    [] c.op = "consume" -> IF Quiescent(t) THEN BConsumeQ_(BatchOf(c)) ELSE BConsume_(BatchOf(c))
     [] c.op = "size"    -> BSize_(c.n)
     [] c.op = "empty"   -> BEmpty_(c.b)
     [] c.op = "assign"  -> VAssign_(c.v)
-    [] c.op = "update"  -> VUpdate_(c.ret)
+    [] c.op = "burst"   -> VBurst_(Run(c.first, c.n))
+    [] c.op = "update"  -> (IF Quiescent(t) THEN VUpdateQ_(c.ret) ELSE VUpdate_(c.ret)) /\ Hint(c)
     [] c.op = "get"     -> VGet_(c.v)
     [] OTHER            -> FALSE
 
@@ -78,28 +104,35 @@ TRes == /\ l <= N /\ Line.k = "res"
 \* between lines i and j (independent of where the search placed the effects; any execution that
 \* has a linearisation satisfies them - they are checked again at the End line in this form
 \* because this is the form the property statement has).
-Sel(i, j, kind, op) == SelectSeq(SubSeq(TraceLines, i, j), LAMBDA ln : ln.k = kind /\ ln.c.op = op)
+Sel(i, j, kind, ops) == SelectSeq(SubSeq(TraceLines, i, j), LAMBDA ln : ln.k = kind /\ ln.c.op \in ops)
 RECURSIVE FlatBatches(_)
-FlatBatches(s) == IF s = <<>> THEN <<>> ELSE Head(s).c.batch \o FlatBatches(Tail(s))
+FlatBatches(s) == IF s = <<>> THEN <<>> ELSE BatchOf(Head(s).c) \o FlatBatches(Tail(s))
+RECURSIVE FlatPushes(_)
+FlatPushes(s) == IF s = <<>> THEN <<>>
+                 ELSE (IF Head(s).c.op = "push" THEN <<Head(s).c.v>> ELSE ElemRun(Head(s).c.p, Head(s).c.first, Head(s).c.n))
+                      \o FlatPushes(Tail(s))
 
 \* consumed = pushed, per producer, in push order (batches in the consumer's call order)
 WholeBuf(i, j) ==
-  LET cons == FlatBatches(Sel(i, j, "res", "consume"))
-      psh  == Sel(i, j, "inv", "push")
-  IN /\ \A k \in DOMAIN cons : cons[k][1] \in Producers
-     /\ \A p \in Producers :
-          LET mine == SelectSeq(psh, LAMBDA ln : ln.t = p)
-          IN ProjP(cons, p) = [k \in 1..Len(mine) |-> mine[k].c.v]
+  LET cons == FlatBatches(Sel(i, j, "res", {"consume"}))
+      psh  == Sel(i, j, "inv", {"push", "bpush"})
+  IN /\ SelectSeq(psh, LAMBDA ln : ln.t \notin Producers) = <<>>
+     /\ SelectSeq(cons, LAMBDA e : e[1] \notin Producers) = <<>>
+     /\ \A p \in Producers : ProjP(cons, p) = FlatPushes(SelectSeq(psh, LAMBDA ln : ln.t = p))
 
 \* values seen = initial value or assigned ones, in assignment order; the last one seen is the last one assigned
+\* (a value is located by the assignment line that contains it; inside a burst values increase)
 WholeVal(i, j) ==
-  LET as   == Sel(i, j, "inv", "assign")
-      gs   == Sel(i, j, "res", "get")
-      Known(v) == v = InitVal \/ \E a \in DOMAIN as : as[a].c.v = v
-      Pos(v) == IF v = InitVal THEN 0 ELSE CHOOSE a \in DOMAIN as : as[a].c.v = v
+  LET as   == Sel(i, j, "inv", {"assign", "burst"})
+      gs   == Sel(i, j, "res", {"get"})
+      In(a, v) == IF as[a].c.op = "assign" THEN as[a].c.v = v ELSE as[a].c.first <= v /\ v < as[a].c.first + as[a].c.n
+      LastOf(a) == IF as[a].c.op = "assign" THEN as[a].c.v ELSE as[a].c.first + as[a].c.n - 1
+      Known(v) == v = InitVal \/ \E a \in DOMAIN as : In(a, v)
+      Pos(v) == IF v = InitVal THEN 0 ELSE CHOOSE a \in DOMAIN as : In(a, v)
+      Before(v, w) == Pos(v) < Pos(w) \/ (Pos(v) = Pos(w) /\ v <= w)
   IN /\ \A k \in DOMAIN gs : Known(gs[k].c.v)
-     /\ \A k \in 2..Len(gs) : Pos(gs[k - 1].c.v) <= Pos(gs[k].c.v)
-     /\ (gs # <<>> /\ as # <<>>) => gs[Len(gs)].c.v = as[Len(as)].c.v
+     /\ \A k \in 2..Len(gs) : Before(gs[k - 1].c.v, gs[k].c.v)
+     /\ (gs # <<>> /\ as # <<>>) => gs[Len(gs)].c.v = LastOf(Len(as))
 
 TEnd == /\ l <= N /\ Line.k = "End"
         /\ at = Idle
